@@ -39,6 +39,8 @@ impl Block {
         debug_assert!(
             in_block_offset + (data.len() as u64 + PREFIX_META_SIZE as u64) <= self.limit
         );
+        #[cfg(walrus_verif)]
+        crate::wal::verif::fault_io("block_write")?;
 
         let new_meta = Metadata {
             read_size: data.len(),
